@@ -1,7 +1,7 @@
 //! Cargo.toml parser
 
 use crate::parser::traits::{ParseError, Parser};
-use crate::parser::types::{PackageInfo, RegistryType};
+use crate::parser::types::{PackageInfo, RegistryType, is_closed_string};
 use tracing::warn;
 
 /// Parser for Cargo.toml files
@@ -138,6 +138,9 @@ impl CargoTomlParser {
                         dotted_key_suffix = Some(suffix.to_string());
                     }
                 }
+                "string" if !is_closed_string(&content[child.byte_range()]) => {
+                    // The closing quote has not been typed yet: not a version
+                }
                 "string" => {
                     // Simple version: serde = "1.0" or dotted: serde.version = "1.0"
                     if is_dotted_key {
@@ -230,7 +233,10 @@ impl CargoTomlParser {
                             let key = &content[pair_child.byte_range()];
                             is_version_key = key == "version";
                         }
-                        "string" if is_version_key => {
+                        "string"
+                            if is_version_key
+                                && is_closed_string(&content[pair_child.byte_range()]) =>
+                        {
                             let text = &content[pair_child.byte_range()];
                             let version = text
                                 .trim()
